@@ -296,6 +296,13 @@ def scenario(rng, T, roots, gated, plan, tag='wt'):
                 else:
                     bad('C06', text)
         # C11 in watch mode: a restarted service never overlaps with its previous instance
+        for t in sorted(clo):
+            if T[t]['kind'] == 'service':
+                pids = [int(f[2]) for f in tr if f[0] == 'start' and f[1] == t]
+                alive = [p_ for p_ in pids if blackbox.proc_state(p_) not in (None, 'Z')]
+                if len(alive) > 1:
+                    bad('C11', 'service %s has %d live instances at quiescence (pids %s): a restart did not stop the old one'
+                        % (t, len(alive), alive))
         obs = {'targets': T, 'roots': list(roots), 'gated': gated, 'plan': plan, 'trace': tr[:60], 'stale': stale[:4]}
         return obs, V, known
     finally:
